@@ -1,4 +1,5 @@
 import UberjobModel.Props.C09
+#print axioms Uberjob.Phys.C09_loop_is_closed_form
 #print axioms Uberjob.Phys.C09_edges
 #print axioms Uberjob.Phys.C09_args_from_read
 #print axioms Uberjob.Phys.C09_output
